@@ -461,4 +461,34 @@ Section Proofs.
     apply andb_true_iff in Hw as [Hw1 Hw2]. apply Nat.eqb_eq in Hw2.
     exists e, outs, (PM (pm_uuid m) (pm_payload m) (Some (stamp c (txt e) md))). repeat split; auto.
   Qed.
+
+  (** ... and for the other clauses: an accepted observation of a failed, not successfully
+      poisoned message ends Nacked; an accepted observation of a successful handler or of a
+      filtered-out error has no poison publish and an unchanged result *)
+  Lemma c13_monitor_sound_rest cfg c0 m0 h pp pk pb tr final r mf :
+    c13_monitor txt eqbM cfg c0 m0 h pp pk pb tr final r mf = true ->
+    (hs_pre h = PreNone -> handler_failed h = true -> poison_ok cfg m0 h pp = false -> final = Nacked)
+    /\ (forall outs, hs_out h = HRet outs ->
+          pproj tr = [] /\ exists o, r = MRet o None /\ outs_eqb eqbM o outs = true)
+    /\ (forall e outs, hs_out h = HFail e outs -> accepts cfg e = FNo ->
+          poison_pubs (pproj tr) = [] /\ exists o e', r = MRet o (Some e') /\ outs_eqb eqbM o outs = true /\ err_eqb e' e = true).
+  Proof.
+    unfold c13_monitor. intros Hmon.
+    apply andb_true_iff in Hmon as [Hmon _]. apply andb_true_iff in Hmon as [Hmon _].
+    apply andb_true_iff in Hmon as [Hmon Hs]. apply andb_true_iff in Hmon as [Hw _].
+    split; [|split].
+    - intros Hpre Hf Hp. unfold c13_expected_final in Hs. rewrite Hpre, Hp in Hs.
+      unfold handler_failed in Hf. destruct (hs_out h); try discriminate.
+      simpl in Hs. destruct final; try discriminate. reflexivity.
+    - intros outs Hout. unfold mw_monitor in Hw. destruct (run_acts (hs_acts h) (m0, c0)) as [m c].
+      rewrite Hout in Hw. apply andb_true_iff in Hw as [Hw _]. apply andb_true_iff in Hw as [Hw1 Hw2].
+      split; [destruct (pproj tr); [reflexivity|discriminate]|].
+      destruct r as [o [e'|]|]; try discriminate. eauto.
+    - intros e outs Hout Ha. unfold mw_monitor in Hw. destruct (run_acts (hs_acts h) (m0, c0)) as [m c].
+      rewrite Hout, Ha in Hw. apply andb_true_iff in Hw as [_ Hw].
+      apply andb_true_iff in Hw as [Hw _]. apply andb_true_iff in Hw as [Hw1 Hw2].
+      split; [destruct (poison_pubs (pproj tr)); [reflexivity|discriminate]|].
+      destruct r as [o [e'|]|]; try discriminate.
+      apply andb_true_iff in Hw1 as [A B]. eauto 6.
+  Qed.
 End Proofs.
